@@ -32,7 +32,7 @@ ASSUMPTIONS = [
     "Excl: names that collide with the daemon's readonly variables (silently skipped by _generate_env_str by design) and empty lists are not in the alphabet",
     "Excl: values longer than 3 characters, lists longer than 2, characters outside the 12-character alphabet",
     "reading back happens before any phase function / environment save-reload runs (that filtering is C34's subject)",
-    "an environment whose transfer raises, is not acknowledged, hangs (120 s, re-checked once with 480 s on a fresh daemon), or leaves the channel unable to answer 'alive' counts as a violation for the minimal sub-environment that reproduces it on a fresh daemon",
+    "an environment whose transfer raises, is not acknowledged, hangs (every daemon process asleep without CPU use for 30 s while an answer is awaited, or 600 s without answer twice), or leaves the channel unable to answer 'alive' counts as a violation for the minimal sub-environment that reproduces it on a fresh daemon",
     "stdout/stderr of the daemon are pointed at /dev/null (bash diagnostics of broken transfers would flood the log); they are not part of the protocol channel",
 ]
 BOUNDS = {
@@ -44,7 +44,7 @@ BOUNDS = {
 CHARS = ["a", " ", "'", '"', "\\", "$", "`", "\n", "\t", "é", "n", "!"]
 NAME_SHAPES = ["A", "_b", "Ab1x"]
 BATCH = 40
-TIMEOUT = 120
+TIMEOUT = 600
 TRANSPORTS = ("inline", "file", "metadata")
 
 
@@ -115,6 +115,66 @@ class _Timeout(BaseException):
 
 def _alarm(signum, frame):
     raise _Timeout()
+
+
+def _group_state(pgid):
+    """(states, cpu ticks) of all processes in process group pgid"""
+    states, total = [], 0
+    for d in os.listdir("/proc"):
+        if not d.isdigit():
+            continue
+        try:
+            with open(f"/proc/{d}/stat") as f:
+                data = f.read()
+        except OSError:
+            continue
+        fields = data[data.rfind(")") + 2 :].split()
+        if int(fields[2]) == pgid:
+            states.append(fields[0])
+            total += int(fields[11]) + int(fields[12])
+    return states, total
+
+
+class Watchdog:
+    """SIGALRM ticker that tells a stuck channel from a starved machine: it fires when every process of the peer's
+    process group has been sleeping without consuming any CPU for IDLE seconds while we wait for it (a runnable but
+    starved process is in state R, not S), or when the absolute cap is reached."""
+
+    TICK, IDLE = 5, 30
+
+    def __init__(self, pgid_fn, cap):
+        self.pgid_fn, self.cap = pgid_fn, cap
+        self.elapsed = self.idle = 0
+        self.last = None
+        self.reason = None
+
+    def __enter__(self):
+        self.old = signal.signal(signal.SIGALRM, self.tick)
+        signal.setitimer(signal.ITIMER_REAL, self.TICK, self.TICK)
+        return self
+
+    def __exit__(self, *exc):
+        signal.setitimer(signal.ITIMER_REAL, 0)
+        signal.signal(signal.SIGALRM, self.old)
+        return False
+
+    def tick(self, signum, frame):
+        self.elapsed += self.TICK
+        if self.elapsed >= self.cap:
+            self.reason = f"no answer within {self.cap}s"
+            raise _Timeout()
+        pgid = self.pgid_fn()
+        if not pgid:
+            return
+        states, total = _group_state(pgid)
+        if states and all(s in "SZ" for s in states) and total == self.last:
+            self.idle += self.TICK
+        else:
+            self.idle = 0
+        self.last = total
+        if self.idle >= self.IDLE:
+            self.reason = f"peer idle for {self.idle}s: every process of the peer sleeps, nobody is going to write"
+            raise _Timeout()
 
 
 class Ctx:
@@ -294,10 +354,9 @@ def run_env(ctx, transport, vars_, timeout=None):
     failure = None
     timeout = timeout or TIMEOUT
     ctx.defer_kill(True)
-    old = signal.signal(signal.SIGALRM, _alarm)
-    signal.setitimer(signal.ITIMER_REAL, timeout, 5)
+    dog = Watchdog(lambda: ebp.pid, timeout)
     try:
-        try:
+        with dog:
             if transport in ("inline", "file"):
                 ebp.write("process_ebuild probe")
                 if not ebp.send_env(env, tmpdir=ctx.dir if transport == "file" else None):
@@ -324,11 +383,8 @@ def run_env(ctx, transport, vars_, timeout=None):
                 ebp.write("alive")
                 if not ebp.expect("yep!"):
                     failure = "main loop did not answer 'alive' after the transfer"
-        finally:
-            signal.setitimer(signal.ITIMER_REAL, 0)
-            signal.signal(signal.SIGALRM, old)
     except _Timeout:
-        failure = (f"no answer from the daemon within {timeout}s (channel stuck)",)
+        failure = (f"channel stuck ({dog.reason})",)
     except Exception as e:
         failure = f"{type(e).__name__}: {str(e).strip()[:160]}"
     ctx.defer_kill(False)
@@ -388,10 +444,10 @@ def check_group(ctx, transport, vars_, classes, stats):
     """-> list of minimal failing cases inside this group"""
     failure, per, tag = run_env(ctx, transport, vars_)
     stats["envs"] += 1
-    if failure is not None and failure.startswith("no answer from the daemon within"):
-        # a starved machine can exceed the time limit: only a hang that shows again on a fresh daemon with four times
-        # the allowance is taken as a stuck channel
-        failure, per, tag = run_env(ctx, transport, vars_, timeout=4 * TIMEOUT)
+    if failure is not None and failure.startswith("channel stuck (no answer within"):
+        # the absolute cap was hit while the daemon was still busy (a starved machine): only a hang that shows again on
+        # a fresh daemon counts. (The usual stuck channel is recognised much earlier: every daemon process idle.)
+        failure, per, tag = run_env(ctx, transport, vars_)
         stats["envs"] += 1
         stats["timeouts_retried"] += 1
     if failure is None and not per:
@@ -470,8 +526,8 @@ def replay(case):
     try:
         vars_ = [tuple(v) for v in case["vars"]]
         failure, per, tag = run_env(ctx, case["transport"], vars_)
-        if failure is not None and failure.startswith("no answer from the daemon within"):
-            failure, per, tag = run_env(ctx, case["transport"], vars_, timeout=4 * TIMEOUT)
+        if failure is not None and failure.startswith("channel stuck (no answer within"):
+            failure, per, tag = run_env(ctx, case["transport"], vars_)
     finally:
         ctx.close()
     msgs = [per[i] for i in sorted(per)]
